@@ -17,6 +17,7 @@ import (
 	"strings"
 	"sync"
 	"sync/atomic"
+	"unsafe"
 
 	"github.com/gontainer/gontainer-helpers/v3/container"
 )
@@ -313,6 +314,8 @@ func runOp(c any, ctxs map[string]context.Context, op Op) (res Result) {
 		return Result{V: Describe(api.IsTaggedBy(op.Name, op.Tag), c)}
 	case "counters":
 		return Result{C: Counters()}
+	case "state":
+		return Result{V: dumpState(api, ctxs)}
 	case "getter", "getterctx", "mustgetter", "mustgetterctx":
 		m := reflect.ValueOf(c).MethodByName(op.Name)
 		if !m.IsValid() {
@@ -365,6 +368,43 @@ func runOp(c any, ctxs map[string]context.Context, op Op) (res Result) {
 		return Result{V: Node{"t": "nil"}}
 	}
 	return Result{Err: "unknown op " + op.Op}
+}
+
+// dumpState reads the container's private caches (shared services, parameters, per-context bags) by
+// reflection: the canonical state of the cache/override state machine explored by HIST-X.
+func dumpState(api API, ctxs map[string]context.Context) Node {
+	root := reflect.ValueOf(api.Root()).Elem()
+	keysOf := func(kv reflect.Value) []any {
+		// kv: interface holding *safeMap{data map[string]any}
+		for kv.Kind() == reflect.Interface || kv.Kind() == reflect.Ptr {
+			if kv.IsNil() {
+				return []any{}
+			}
+			kv = kv.Elem()
+		}
+		data := kv.FieldByName("data")
+		var ks []string
+		for _, k := range data.MapKeys() {
+			ks = append(ks, k.String())
+		}
+		sort.Strings(ks)
+		out := make([]any, len(ks))
+		for i, k := range ks {
+			out[i] = k
+		}
+		return out
+	}
+	n := Node{"t": "state", "shared": keysOf(root.FieldByName("cacheSharedServices")), "params": keysOf(root.FieldByName("cacheParams"))}
+	idf := root.FieldByName("id")
+	key := reflect.NewAt(idf.Type(), unsafe.Pointer(idf.UnsafeAddr())).Elem().Interface()
+	bags := Node{}
+	for name, ctx := range ctxs {
+		if b := ctx.Value(key); b != nil {
+			bags[name] = keysOf(reflect.ValueOf(b))
+		}
+	}
+	n["bags"] = bags
+	return n
 }
 
 // Main reads sessions (one JSON document per line) from stdin and prints one JSON line of results each.
